@@ -29,6 +29,8 @@ CATALOGUE = {
     "R17": "the tail expression E of a function becomes `let vx_ret = E; vx_ret`",
     "R18": "`let X = loop { .. break E; .. };` becomes an Option accumulator assigned before a plain `break`",
     "R19": "the intermediate values of a method chain `let X = a.m1(..).m2(&b.m3()).m4();` are bound to fresh names in evaluation order (receiver, then arguments left to right)",
+    "R20": "float arithmetic in the named f64 bindings becomes calls on an uninterpreted IEEE-754 algebra, operator by operator (fadd fsub fmul fdiv fneg ffloor fint flit); decimal literals keep their digits",
+    "R21": "`x as i16` / `x as i64` on a double becomes a prelude function carrying Rust's cast contract (exact when representable, saturating otherwise)",
     "D4": "statement slicing: a floating-point / BigInt / unverifiable tail or binding is replaced by a call of an uncontracted (or explicitly assumed-contract) external function of the same free variables",
 }
 
@@ -841,20 +843,29 @@ def r_poly_map(sig, body, arg):
 
 
 def r_any_chain(sig, body, arg):
-    """R4: `if RECV.iter()[.skip(A)].any(|P| E) {` -> a flag loop hoisted in front of the `if` (no early
-    exit; the flag has the same value)."""
+    """R4: `if RECV.iter()[.skip(A)].any(|P| E) {` and `if (A..B).any(|P| E) {` -> a flag loop hoisted in
+    front of the `if` (no early exit; the flag has the same value)."""
     n = 0
     pat = re.compile(r"if\s+([\w.]+?)\.iter\(\)(?:\.skip\(((?:[^()]|\([^()]*\))*)\))?\.any\(\|\s*&?(\w+)\s*\|\s*([^)]*\))\s*\)\s*\{")
+    pat2 = re.compile(r"if\s+\(([^().]+?)\.\.([^().]+?)\)\.any\(\|\s*&?(\w+)\s*\|\s*((?:[^()]|\([^()]*\))*)\)\s*\{")
     while True:
         m = pat.search(body)
-        if not m:
+        m2 = pat2.search(body)
+        if m and (not m2 or m.start() < m2.start()):
+            n += 1
+            flag = "vx_any%d" % n
+            lo = "0" if m.group(2) is None else "vx_min(%s, %s.len())" % (m.group(2), m.group(1))
+            pre = ("let mut %s = false;\n        for vx_i in %s..%s.len() {\n            let %s = %s[vx_i];\n            if %s { %s = true; }\n        }\n        "
+                   % (flag, lo, m.group(1), m.group(3), m.group(1), m.group(4), flag))
+            body = body[:m.start()] + pre + "if %s {" % flag + body[m.end():]
+        elif m2:
+            n += 1
+            flag = "vx_any%d" % n
+            pre = ("let mut %s = false;\n        for vx_i in %s..%s {\n            let %s = vx_i;\n            if %s { %s = true; }\n        }\n        "
+                   % (flag, m2.group(1).strip(), m2.group(2).strip(), m2.group(3), m2.group(4).strip(), flag))
+            body = body[:m2.start()] + pre + "if %s {" % flag + body[m2.end():]
+        else:
             break
-        n += 1
-        flag = "vx_any%d" % n
-        lo = "0" if m.group(2) is None else "vx_min(%s, %s.len())" % (m.group(2), m.group(1))
-        pre = ("let mut %s = false;\n        for vx_i in %s..%s.len() {\n            let %s = %s[vx_i];\n            if %s { %s = true; }\n        }\n        "
-               % (flag, lo, m.group(1), m.group(3), m.group(1), m.group(4), flag))
-        body = body[:m.start()] + pre + "if %s {" % flag + body[m.end():]
     return sig, body, n
 
 
@@ -901,6 +912,118 @@ def r_name_chain(sig, body, arg):
     return sig, body, 1
 
 
+
+class _P:
+    """precedence-climbing parser for the float expressions of the numeric kernels:
+    atoms: float literal `1f64` `0.5f64` `1.8205`, identifier, `( E )`, `( E ) as f64` / `(E as f64)`,
+    `f64::floor(E)`, unary minus; operators + - * /.  Integer sub-expressions under `as f64` are kept verbatim."""
+    def __init__(self, s):
+        self.s = s
+        self.i = 0
+    def ws(self):
+        while self.i < len(self.s) and self.s[self.i].isspace():
+            self.i += 1
+    def peek(self):
+        self.ws()
+        return self.s[self.i] if self.i < len(self.s) else ""
+    def expr(self):
+        l = self.term()
+        while self.peek() in ("+", "-"):
+            op = self.s[self.i]; self.i += 1
+            r = self.term()
+            l = "%s(%s, %s)" % ("fadd" if op == "+" else "fsub", l, r)
+        return l
+    def term(self):
+        l = self.cast()
+        while self.peek() in ("*", "/"):
+            op = self.s[self.i]; self.i += 1
+            r = self.cast()
+            l = "%s(%s, %s)" % ("fmul" if op == "*" else "fdiv", l, r)
+        return l
+    def cast(self):
+        a, is_int_paren = self.atom()
+        self.ws()
+        m = re.match(r"as\s+f64\b", self.s[self.i:])
+        if m:
+            self.i += m.end()
+            return "fint((%s) as i64)" % a
+        if is_int_paren:
+            raise ValueError("parenthesised integer expression without cast")
+        return a
+    def atom(self):
+        c = self.peek()
+        if c == "-":
+            self.i += 1
+            a, _ = self.atom()
+            return "fneg(%s)" % a, False
+        if c == "(":
+            o = self.i
+            depth = 0
+            k = o
+            while k < len(self.s):
+                if self.s[k] == "(": depth += 1
+                elif self.s[k] == ")":
+                    depth -= 1
+                    if depth == 0: break
+                k += 1
+            inner = self.s[o + 1:k]
+            self.i = k + 1
+            mi = re.match(r"^\s*(.*?)\s+as\s+f64\s*$", inner, re.S)
+            if mi:   # (z as f64)
+                return "fint((%s) as i64)" % mi.group(1), False
+            rest = self.s[self.i:]
+            if re.match(r"\s*as\s+f64\b", rest):
+                return inner, True      # integer expression, cast follows
+            return _P(inner).full(), False
+        m = re.match(r"f64::floor\s*\(", self.s[self.i:])
+        if m:
+            o = self.i + m.end() - 1
+            depth = 0; k = o
+            while k < len(self.s):
+                if self.s[k] == "(": depth += 1
+                elif self.s[k] == ")":
+                    depth -= 1
+                    if depth == 0: break
+                k += 1
+            inner = self.s[o + 1:k]
+            self.i = k + 1
+            return "ffloor(%s)" % _P(inner).full(), False
+        m = re.match(r"(\d+)(?:\.(\d+))?(?:_?f64)?(?![\w.])", self.s[self.i:])
+        if m:
+            self.i += m.end()
+            frac = m.group(2) or ""
+            return "flit(%d, %d)" % (int(m.group(1) + frac), len(frac)), False
+        m = re.match(r"[A-Za-z_]\w*", self.s[self.i:])
+        if m:
+            self.i += m.end()
+            return m.group(0), False
+        raise ValueError("cannot parse float expression at: " + self.s[self.i:self.i + 30])
+    def full(self):
+        e = self.expr()
+        self.ws()
+        if self.i != len(self.s):
+            raise ValueError("trailing text in float expression: " + self.s[self.i:])
+        return e
+
+def r_float_expr(sig, body, arg):
+    """R20 FloatExpr <names..>: the right-hand sides of the named `let` / `const` bindings of type f64
+    are rewritten, operator by operator, into calls on an uninterpreted IEEE algebra
+    (fadd fsub fmul fdiv fneg ffloor fint flit); literals keep their decimal digits."""
+    n = 0
+    for name in arg.split():
+        m = re.search(r"\b(let|const)\s+%s\s*(?::\s*f64\s*)?=\s*([^;]*);" % re.escape(name), body)
+        if not m:
+            return sig, body, 0
+        try:
+            e = _P(m.group(2)).full()
+        except ValueError:
+            return sig, body, 0
+        body = body[:m.start()] + "let %s: f64 = %s;" % (name, e) + body[m.end():]
+        n += 1
+    return sig, body, n
+
+
+
 RULES = {
     "Self": r_self,
     "Generic": r_generic,
@@ -935,6 +1058,7 @@ RULES = {
     "LoopBreakValue": r_loop_break_value,
     "PolyMap": r_poly_map,
     "NameChain": r_name_chain,
+    "FloatExpr": r_float_expr,
     "AnyChain": r_any_chain,
 }
 RULE_IDS = {"Self": "R1", "Generic": "R1", "BoolAssign": "R2", "ForUnderscore": "R3",
